@@ -144,7 +144,7 @@ fn check_simp(c: &SimpCase, obs: &mut Obs) -> Result<(), String> {
         match r {
             Err(p) => {
                 if promised {
-                    return Err(format!("simplify panicked on the pseudo-toroidal cover of {} ({}): {}", x.text(), which, p));
+                    return Err(format!("simplify panicked on the pseudo-toroidal cover of {} ({}): {}", x.short(), which, p));
                 }
                 obs.discard("simplify panicked outside its promised domain");
                 return Ok(());
@@ -162,14 +162,14 @@ fn check_simp(c: &SimpCase, obs: &mut Obs) -> Result<(), String> {
             }
             Some(out) => out,
         };
-        valid_manifold(out).map_err(|e| format!("simplify({} of {} via {}): {}", which, x.text(), c.source, e))?;
+        valid_manifold(out).map_err(|e| format!("simplify({} of {} via {}): {}", which, x.short(), c.source, e))?;
         if out.is_connected() {
             if promised {
-                ensure!(out.components(&[0, 1, 2]).len() == 1, "simplified pseudo-toroidal cover of {} has {} tiles", x.text(), out.components(&[0, 1, 2]).len());
-                ensure!(out.components(&[1, 2, 3]).len() == 1, "simplified pseudo-toroidal cover of {} has {} vertices", x.text(), out.components(&[1, 2, 3]).len());
+                ensure!(out.components(&[0, 1, 2]).len() == 1, "simplified pseudo-toroidal cover of {} has {} tiles", x.short(), out.components(&[0, 1, 2]).len());
+                ensure!(out.components(&[1, 2, 3]).len() == 1, "simplified pseudo-toroidal cover of {} has {} vertices", x.short(), out.components(&[1, 2, 3]).len());
                 for i in 0..3 {
                     for d in 1..=out.size {
-                        ensure!(out.r(i, i + 1, d) != 2, "simplified pseudo-toroidal cover of {} has a ({},{})-orbit of length 2 (degree 2) at chamber {}", x.text(), i, i + 1, d);
+                        ensure!(out.r(i, i + 1, d) != 2, "simplified pseudo-toroidal cover of {} has a ({},{})-orbit of length 2 (degree 2) at chamber {}", x.short(), i, i + 1, d);
                     }
                 }
             }
@@ -177,11 +177,11 @@ fn check_simp(c: &SimpCase, obs: &mut Obs) -> Result<(), String> {
             if !c.known.is_empty() || finite_input {
                 let (hi, ho) = (h1(&input), h1(out));
                 if let (Some(hi), Some(ho)) = (hi, ho) {
-                    ensure!(hi == ho, "first homology changes from {:?} to {:?} under simplification ({} via {})", hi, ho, x.text(), c.source);
+                    ensure!(hi == ho, "first homology changes from {:?} to {:?} under simplification ({} via {})", hi, ho, x.short(), c.source);
                 }
                 let (pi, po) = (own_fundamental_group(&input).pres, own_fundamental_group(out).pres);
                 if let (Some(ci), Some(co)) = (class_counts(&pi, 3), class_counts(&po, 3)) {
-                    ensure!(ci == co, "numbers of subgroup classes of index 1..3 change from {:?} to {:?} under simplification ({} via {})", ci, co, x.text(), c.source);
+                    ensure!(ci == co, "numbers of subgroup classes of index 1..3 change from {:?} to {:?} under simplification ({} via {})", ci, co, x.short(), c.source);
                     obs.class("subgroup profile compared");
                 }
                 obs.class("homology compared");
@@ -198,8 +198,8 @@ fn check_simp(c: &SimpCase, obs: &mut Obs) -> Result<(), String> {
         }
     }
     if !c.known.is_empty() {
-        ensure!(keys.iter().all(|k| k.is_some()), "simplification of the pseudo-toroidal cover of the euclidean symbol {} is not connected / empty", x.text());
-        ensure!(keys[0] == keys[1] && keys[0] == keys[2], "canonical minimal image of the simplified cover of {} depends on the numbering or on the evaluation", x.text());
+        ensure!(keys.iter().all(|k| k.is_some()), "simplification of the pseudo-toroidal cover of the euclidean symbol {} is not connected / empty", x.short());
+        ensure!(keys[0] == keys[1] && keys[0] == keys[2], "canonical minimal image of the simplified cover of {} depends on the numbering or on the evaluation", x.short());
         obs.class("known-euclidean corpus");
     }
     let connected_nontrivial = outs.iter().any(|(_, o)| o.as_ref().map_or(false, |o| o.is_connected() && own_fundamental_group(o).pres.nr_gens > 0));
@@ -241,6 +241,17 @@ pub fn run(ctx: &mut Ctx) {
     for (k, c) in corpus_cases(t.pick(4, 6)).into_iter().enumerate() {
         if c.known == "literature corpus" || k % stride == 0 {
             cases.push(SimpCase { base: c.ds, source: "ptc2".into(), k: 2, pick: (k as u32).wrapping_mul(0x9e37_79b9), swaps: sw(k + 1), known: format!("2-sheeted cover of: {}", c.known) });
+        }
+    }
+    // quotients of the cubic tiling by space groups (known euclidean) and cubical manifolds of known topology
+    for (k, c) in crate::props::c17::cubic_cases(t.pick(100, 2000), t.pick(3, 4)).into_iter().enumerate() {
+        cases.push(SimpCase { base: c.ds, source: "ptc".into(), k: 0, pick: 0, swaps: sw(k), known: c.known });
+    }
+    for (k, c) in crate::props::c17::manifold_cases(t.pick(3, 12), true).into_iter().enumerate() {
+        if c.kind == "weak" {
+            cases.push(SimpCase { base: c.ds, source: "ptc".into(), k: 0, pick: 0, swaps: sw(k), known: c.known });
+        } else {
+            cases.push(SimpCase { base: c.ds, source: "self".into(), k: 0, pick: 0, swaps: sw(k), known: String::new() });
         }
     }
     // class (B): branching up to 5
